@@ -8,6 +8,7 @@ CONSTANTS
   Faults <- NoFaults
   MaxFaults = 0
   Stepped = TRUE
+  Dir = "fwd"
 CHECK_DEADLOCK FALSE
 INVARIANTS
   TypeOK
